@@ -16,6 +16,11 @@ The signature bytes are a genuine signature by owner's key (key type of sig.alg)
             | {"text": "<text>"}}                     any other plaintext
 an encrypted wrapper (compact JWE) around the object.  The provider of every World holds one RSA and one EC
 encryption key (ENC["OP"]); ENC["other"] are keys it does not have.
+
+RegWorld: a provider (own key set and advertised request_object_signing_alg_values_supported chosen by the generator)
+whose third client, client_d, is NOT written into the client database: it registers through the real registration
+endpoint (parse_request + process_request) with a JWKS of several key types, is read back through the real
+registration-read endpoint, and is then sent request objects like the static clients.
 """
 import base64
 import json
@@ -30,8 +35,37 @@ from cryptojwt.utils import b64e
 KEYDEFS = [{"type": "RSA", "key": "", "use": ["sig"]}, {"type": "EC", "crv": "P-256", "use": ["sig"]}]
 OWNERS = ["client_1", "client_2", "mallory", "OP"]
 KTYS = ["RSA", "EC", "oct"]
-ALG_KTY = {"RS256": "RSA", "RS384": "RSA", "PS256": "RSA", "ES256": "EC", "HS256": "oct", "HS384": "oct", "none": "none"}
-REDIRECT = {"client_1": "https://client_1.example.com/cb", "client_2": "https://client_2.example.com/cb"}
+ALG_KTY = {"RS256": "RSA", "RS384": "RSA", "PS256": "RSA", "ES256": "EC", "HS256": "oct", "HS384": "oct", "none": "none",
+           "RS512": "RSA", "PS384": "RSA", "PS512": "RSA", "ES384": "EC", "ES512": "EC", "HS512": "oct", "EdDSA": "OKP"}
+REDIRECT = {"client_1": "https://client_1.example.com/cb", "client_2": "https://client_2.example.com/cb",
+            "client_d": "https://client_d.example.com/cb"}
+# ---- the dynamically registered client
+DYN = "client_d"
+# the slot of the key an algorithm is signed with (client_d owns one key per slot; the static owners only RSA / EC / oct)
+ALG_SLOT = {"ES384": "EC384", "ES512": "EC521", "EdDSA": "OKP"}
+DYN_SLOTS = ["RSA", "EC", "oct", "EC384", "EC521", "OKP"]
+DYN_KEYDEFS = {"RSA": {"type": "RSA", "key": "", "use": ["sig"]}, "EC": {"type": "EC", "crv": "P-256", "use": ["sig"]},
+               "EC384": {"type": "EC", "crv": "P-384", "use": ["sig"]}, "EC521": {"type": "EC", "crv": "P-521", "use": ["sig"]},
+               "OKP": {"type": "OKP", "crv": "Ed25519", "use": ["sig"]}}
+# the provider's OWN signing keys (they sign ID Tokens / userinfo; they never verify a request object)
+OP_KEYSETS = {"rsa+p256": ["RSA", "EC"], "rsa": ["RSA"], "p256": ["EC"], "rsa+p384": ["RSA", "EC384"],
+              "many": ["RSA", "EC", "EC384", "EC521", "OKP"]}
+JOSE_SIGNING = ["RS256", "RS384", "RS512", "PS256", "PS384", "PS512", "ES256", "ES384", "ES512", "EdDSA",
+                "HS256", "HS384", "HS512", "none"]
+
+
+def slot_of(alg):
+    return ALG_SLOT.get(alg) or ALG_KTY[alg]
+
+
+def fixed_client_id(reserved=None, **kwargs):
+    """client_id_generator of the RegWorld's registration endpoint: the one new client is always called client_d
+    (the generator removes it again before the next case), so that the cases of a shard share their string literals"""
+    n, cid = 0, DYN
+    while reserved and cid in reserved:
+        n += 1
+        cid = "%s_%d" % (DYN, n)
+    return cid
 METHOD_SETS = {"all": None, "rp_pub": ["request_param", "public"], "pub": ["public"]}
 _KEYS = {}
 ENC = {}
@@ -50,7 +84,21 @@ def enc_keys():
 
 
 def keynum(owner, kty):
+    if owner == DYN:
+        return 12 + DYN_SLOTS.index(kty)
     return OWNERS.index(owner) * 3 + KTYS.index(kty)
+
+
+def dyn_keys():
+    """client_d's private keys, one per slot (generated once per process)"""
+    if DYN not in _KEYS:
+        from cryptojwt.key_jar import build_keyjar
+        ks = {}
+        for slot, kd in DYN_KEYDEFS.items():
+            kj = build_keyjar([kd])
+            ks[slot] = kj.get_signing_key(kd["type"])[0]
+        _KEYS[DYN] = ks
+    return _KEYS[DYN]
 
 
 def client_keys():
@@ -83,7 +131,7 @@ class World:
             eps["authorization"] = {"client_authn_method": METHOD_SETS[methods]}
         eps["pushed_authorization"] = {"ttl": ttl} if has_par else None
         self.oidc, self.methods, self.has_par, self.ttl = oidc, methods, has_par, ttl
-        self.server = srv.make_server(oidc=oidc, endpoints=eps)
+        self.server = self.make_server(oidc, eps)
         self.ctx = self.server.context
         self.keys = client_keys()
         for cid in ("client_1", "client_2"):
@@ -103,8 +151,14 @@ class World:
         self.fetches = 0
         for cid in ("client_1", "client_2"):
             self.keys[cid]["oct"] = SYMKey(key=self.ctx.cdb[cid]["client_secret"], use="sig")
-        self.op = {"RSA": self.server.keyjar.get_signing_key("RSA", issuer_id="")[0],
-                   "EC": self.server.keyjar.get_signing_key("EC", issuer_id="")[0]}
+        self.op = {}
+        for t in ("RSA", "EC"):
+            ks = self.server.keyjar.get_signing_key(t, issuer_id="")
+            if ks:
+                self.op[t] = ks[0]
+
+    def make_server(self, oidc, eps):
+        return srv.make_server(oidc=oidc, endpoints=eps)
 
     # ---- environment
     def httpc(self, method, url, **kw):
@@ -163,14 +217,21 @@ class World:
                 if k is not None:
                     mine[(t, k.kid if t != "oct" else k.key)] = keynum(o, t)
         for t in ("RSA", "EC"):
-            mine[(t, self.op[t].kid)] = keynum("OP", t)
+            if t in self.op:
+                mine[(t, self.op[t].kid)] = keynum("OP", t)
+        for slot, k in (self.keys.get(DYN) or {}).items():
+            t = k.kty if k.kty in KTYS else None
+            if t is not None:
+                mine[(t, k.kid if t != "oct" else k.key)] = keynum(DYN, slot)
         jar = []
         for iss in kj.owners():
             ks = []
             for k in kj.get("sig", issuer_id=iss) if iss else kj.get("sig", issuer_id=""):
                 if not k.appropriate_for("verify"):
                     continue
-                t = {"RSA": "RSA", "EC": "EC", "oct": "oct"}.get(k.kty, k.kty)
+                if k.kty not in KTYS:
+                    continue        # OKP keys: EdDSA is outside the modelled fragment (the oracle still judges those cases)
+                t = k.kty
                 ks.append((t, mine.get((t, k.kid if t != "oct" else k.key), 90 + len(ks))))
             jar.append((iss, ks))
         clients = []
@@ -199,6 +260,10 @@ class World:
     def key_of(self, owner, kty):
         return self.op[kty] if owner == "OP" else self.keys[owner][kty]
 
+    def sign_key(self, owner, alg):
+        """the key [owner] signs [alg] with: by key type, and for client_d by curve"""
+        return self.keys[owner][slot_of(alg)] if owner == DYN else self.key_of(owner, ALG_KTY[alg])
+
     def wire(self, obj):
         if obj is None:
             return None
@@ -211,7 +276,7 @@ class World:
         sigb = ""
         if sig is not None:
             kty = ALG_KTY[sig["alg"]]
-            key = self.key_of(sig["owner"], kty)
+            key = self.sign_key(sig["owner"], sig["alg"])
             shdr = {"alg": sig["alg"]}
             if kty != "oct":
                 shdr["kid"] = key.kid
@@ -279,6 +344,90 @@ class World:
     def stored(self, urn):
         m = self.ctx.par_db.get(urn)
         return None if m is None else msg_outcome(m)
+
+
+ROSA = "request_object_signing_alg"
+
+
+class RegWorld(World):
+    """A provider with the two static clients and a real registration / registration-read endpoint; its own signing
+    keys are one of OP_KEYSETS.  client_d comes into being only through register()."""
+
+    def __init__(self, oidc=True, methods="all", has_par=True, ttl=3600, opkeys="rsa+p256"):
+        self.opkeys = opkeys
+        super().__init__(True, methods, has_par, ttl)
+        self.keys[DYN] = dyn_keys()
+        self.reg_ep = self.server.get_endpoint("registration")
+        self.read_ep = self.server.get_endpoint("registration_read")
+        self.own_slots = list(OP_KEYSETS[opkeys])
+
+    def make_server(self, oidc, eps):
+        eps = dict(eps)
+        eps["registration"] = {"client_id_generator": {"class": "srv_c16.fixed_client_id"}}
+        keys = {"uri_path": "jwks.json", "key_defs": [DYN_KEYDEFS[s] for s in OP_KEYSETS[self.opkeys]],
+                "private_path": os.path.join(srv.RUN, "op_jwks_c16_%s.json" % self.opkeys.replace("+", "_")), "read_only": False}
+        return srv.make_server(oidc=True, endpoints=eps, extra={"keys": keys})
+
+    def reset(self):
+        super().reset()
+        kj = self.server.keyjar
+        for o in list(kj.owners()):
+            if o.startswith(DYN):
+                del kj[o]
+        self.ctx.registration_access_token.clear()
+        # until a registration assigns a secret, client_d "signs" HS* objects with a secret the provider never issued
+        self.keys[DYN]["oct"] = SYMKey(key="client_d_has_no_secret_yet_0123456789abcdef", use="sig")
+
+    def read_back(self, cid, rat):
+        """the registration-read endpoint, with the registration access token the client was given"""
+        try:
+            r = self.read_ep.parse_request({"client_id": cid}, http_info={"headers": {"authorization": "Bearer %s" % rat}})
+            if "error" in r:
+                return {"error": r["error"]}
+            return self.read_ep.process_request(r)["response_args"].to_dict()
+        except Exception as e:
+            return {"error": type(e).__name__ + ": " + str(e)[:80]}
+
+    def register(self, alg, slots, over=None):
+        """client_d registers: request_object_signing_alg = alg (None: does not say), jwks = its public keys of [slots].
+        Returns what the generator can see: refused | the response, what the client database holds, what is read back"""
+        req = {"application_type": "web", "redirect_uris": [REDIRECT[DYN]], "response_types": ["code"],
+               "token_endpoint_auth_method": "client_secret_basic",
+               "jwks": {"keys": [self.keys[DYN][s].serialize(private=False) for s in slots]}}
+        if alg is not None:
+            req[ROSA] = alg
+        for k, v in (over or {}).items():
+            if v is None:
+                req.pop(k, None)
+            else:
+                req[k] = v
+        kj = self.server.keyjar
+        before = set(self.ctx.cdb.keys())
+        why = None
+        resp = None
+        try:
+            r = self.reg_ep.parse_request(json.dumps(req))
+            if "error" in r:
+                why = "%s: %s" % (r["error"], r.get("error_description", ""))
+            else:
+                resp = self.reg_ep.process_request(request=r)
+                if "response_args" not in resp:
+                    why = "%s: %s" % (resp.get("error"), resp.get("error_description", ""))
+        except Exception as e:
+            why = type(e).__name__ + ": " + str(e)
+        new = sorted(set(self.ctx.cdb.keys()) - before)
+        if why is not None:
+            return {"k": "refused", "why": why[:160], "left_cdb": new, "left_jar": sorted(o for o in kj.owners() if o.startswith(DYN))}
+        ra = resp["response_args"]
+        cid = ra["client_id"]
+        rec = self.ctx.cdb.get(cid) or {}
+        if rec.get("client_secret"):
+            self.keys[DYN]["oct"] = SYMKey(key=rec["client_secret"], use="sig")
+        read = self.read_back(cid, ra.get("registration_access_token"))
+        return {"k": "stored", "cid": cid, "new": new, "code": resp.get("response_code"),
+                "echo": ra.get(ROSA), "stored": rec.get(ROSA), "read": read.get(ROSA), "read_error": read.get("error"),
+                "secret_echo": ra.get("client_secret") == rec.get("client_secret"),
+                "jar_kids": sorted(k.kid for k in kj.get("sig", issuer_id=cid) if k.kid)}
 
 
 # ---- canonical outcomes
